@@ -6,7 +6,11 @@
   Hand-written; tied to the code by correspondence (harness/props/c05.py).  The scalar
   arithmetic (index step, seed, scaling, weight formula, centre addition, sector comparison)
   and the branch predicate of `from_preset` are *not* hand-written: they are the definitions of
-  `Gen/Presets.lean`, regenerated from the source on every run.
+  `Gen/Presets.lean`, regenerated from the source on every run.  Round 2: the sector lookup,
+  `_generate_degree_from_radius`, `_input_type_check`, the argument handling of `__init__` and
+  `from_pruned` are also regenerated (`Gen/AtomGrid.lean`, statement by statement over the
+  primitives of the section "Python / NumPy values and primitives" below) and proved equal to
+  the hand model here (`Props/C05/Gen.lean`).
 
   Outside world (`Env`): the angular tables of the method (C12), what
   `AngularGrid(degree=d, method=m)` hands out for a supported degree (C02/C19), and SciPy's
@@ -222,6 +226,241 @@ def getShellGrid (env : Env K) (g : Grid K) (index : Int) (rSq : Bool) :
   | _, _ => .error .indexError
 
 end
+
+/-! ### Python / NumPy values and primitives met by the generated code (`Gen/AtomGrid.lean`)
+
+`harness/translate/atomgrid.py` translates `AtomGrid.__init__` (up to the call of
+`_generate_atomic_grid`), `_input_type_check`, `from_pruned`, `_generate_degree_from_radius` and
+`_find_degrees_for_radial_points` statement by statement into `do` blocks over the following
+hand-written vocabulary.  `Err.noData` is what a primitive answers when it is asked something the
+typing context of the translator excludes (e.g. the entries of `None`): it is never an exception
+of the code, so a generated definition that reaches it cannot be equal to the hand model. -/
+section Py
+variable {α : Type} {K : Type}
+
+/-- what the code reads of the radial-grid argument: `isinstance(rgrid, OneDGrid)`, `.domain`,
+`.points`, `.weights` (`OneDGrid` guarantees one weight per point); `.size` -/
+structure RGrid (K : Type) where
+  isOneDGrid : Bool
+  domain : Option (K × K)
+  points : List K
+  weights : List K
+
+def RGrid.size (g : RGrid K) : Nat := g.points.length
+
+/-- `rgrid[i].points`, `rgrid[i].weights` for all `i`: the list of pairs the hand model works on -/
+def RGrid.nodes (g : RGrid K) : List (K × K) := g.points.zip g.weights
+
+/-- a `degrees` / `sizes` argument as Python sees it: `None`, a `list` / `np.ndarray` of integers,
+or anything else (a tuple, an int, …) -/
+inductive SeqArg where
+  | none
+  | seq (xs : List Nat)
+  | other
+  deriving DecidableEq, Repr
+
+/-- `x is not None` -/
+def SeqArg.isNotNone : SeqArg → Bool
+  | .none => false
+  | _ => true
+
+/-- `isinstance(x, (np.ndarray, list))` -/
+def SeqArg.isSeq : SeqArg → Bool
+  | .seq _ => true
+  | _ => false
+
+/-- the entries of a list / array argument -/
+def SeqArg.asList : SeqArg → Except Err (List Nat)
+  | .seq xs => .ok xs
+  | _ => .error .noData
+
+/-- the `rotate` argument: a Python `int`, a NumPy integer, a `bool`, or anything else -/
+inductive RotArg where
+  | int (n : Int)
+  | npInt (n : Int)
+  | bool (b : Bool)
+  | other
+  deriving DecidableEq, Repr
+
+/-- `isinstance(rotate, (int, np.integer))` (`bool` is a subclass of `int`) -/
+def RotArg.isIntOrNpInteger : RotArg → Bool
+  | .other => false
+  | _ => true
+
+/-- `isinstance(rotate, int)` -/
+def RotArg.isInt : RotArg → Bool
+  | .int _ => true
+  | .bool _ => true
+  | _ => false
+
+/-- `rotate is not False` -/
+def RotArg.isNotFalse : RotArg → Bool
+  | .bool false => false
+  | _ => true
+
+/-- the integer value in comparisons and sums (`True` is 1, `False` is 0) -/
+def RotArg.val : RotArg → Int
+  | .int n => n
+  | .npInt n => n
+  | .bool b => if b then 1 else 0
+  | .other => 0
+
+/-- `x` where `x` was tested `is not None` -/
+def pyNotNone : Option α → Except Err α
+  | some x => .ok x
+  | none => .error .noData
+
+/-- `np.zeros(n, dtype=float)` -/
+def npZeros [NatCast K] (n : Nat) : List K := List.replicate n ((0 : Nat) : K)
+
+/-- `np.sum(a[:, None] ⋈ b[None, :], axis=1)`: for every entry of `a` the number of entries of `b`
+in relation `⋈` to it -/
+def npCountAxis1 (rel : K → K → Bool) (a b : List K) : List Nat :=
+  a.map fun x => b.countP fun y => rel x y
+
+/-- `d[position]` for an array of non-negative integer positions: `IndexError` beyond the end -/
+def npTake (d : List α) (position : List Nat) : Except Err (List α) :=
+  position.mapM fun p =>
+    match d[p]? with
+    | some x => .ok x
+    | none => .error .indexError
+
+/-- `np.array(a) * s` for a 1-D float array and a scalar -/
+def npMulScalar [Mul K] (a : List K) (s : K) : List K := a.map fun x => x * s
+
+/-- `np.min(a)`: `ValueError` on an empty array -/
+def npMin [LT K] [DecidableLT K] : List K → Except Err K
+  | [] => .error .valueError
+  | x :: xs => .ok (xs.foldl (fun m y => if y < m then y else m) x)
+
+/-- `np.ones(n, dtype=int) * xs` for a 1-D integer array `xs`: a one-element `xs` is broadcast,
+equal lengths multiply entry by entry, anything else is NumPy's broadcast `ValueError` -/
+def npOnesMul (n : Nat) (xs : List Nat) : Except Err (List Nat) :=
+  match xs with
+  | [x] => .ok (List.replicate n x)
+  | _ => if xs.length = n then .ok xs else .error .valueError
+
+/-- `np.array(x)` of `None` or a list of integers: a 0-d object array or a 1-d array -/
+inductive NpArr (α : Type) where
+  | unsized
+  | arr (xs : List α)
+
+def npArrayOpt : Option (List α) → NpArr α
+  | none => .unsized
+  | some xs => .arr xs
+
+/-- `len(a)`: `TypeError` (len() of unsized object) for a 0-d array -/
+def NpArr.len : NpArr α → Except Err Nat
+  | .unsized => .error .typeError
+  | .arr xs => .ok xs.length
+
+/-- `for d in a`: `TypeError` (iteration over a 0-d array) -/
+def NpArr.iter : NpArr α → Except Err (List α)
+  | .unsized => .error .typeError
+  | .arr xs => .ok xs
+
+/-- a 1-D centre array as the model's row vector (`center.shape == (3,)`) -/
+def V3.ofList? : List K → Option (V3 K)
+  | [x, y, z] => some ⟨x, y, z⟩
+  | _ => none
+
+/-- the constructor's range test on an `int` seed, as the generated code writes it (`Int`
+arithmetic), is the model's test on naturals (stated here, Mathlib-free, so that the instances are
+those of the generated text) -/
+theorem rotateGuard_true (r : RotArg) (rot n : Nat) (hv : r.val = (rot : Int)) (h : rot < 2 ^ 32 - n) :
+    decide ((0 : Int) ≤ r.val ∧ r.val < (2 : Int) ^ 32 - (n : Int)) = true := by
+  apply decide_eq_true
+  have h2 : (2 : Int) ^ 32 = 4294967296 := by decide
+  have h3 : (2 : Nat) ^ 32 = 4294967296 := by decide
+  rw [hv, h2]; rw [h3] at h
+  omega
+
+theorem rotateGuard_false (r : RotArg) (rot n : Nat) (hv : r.val = (rot : Int)) (h : ¬ rot < 2 ^ 32 - n) :
+    decide ((0 : Int) ≤ r.val ∧ r.val < (2 : Int) ^ 32 - (n : Int)) = false := by
+  apply decide_eq_false
+  have h2 : (2 : Int) ^ 32 = 4294967296 := by decide
+  have h3 : (2 : Nat) ^ 32 = 4294967296 := by decide
+  rw [hv, h2]; rw [h3] at h
+  omega
+
+end Py
+
+section PyEnv
+variable {K : Type} [Add K] [Sub K] [Mul K] [Div K] [NatCast K]
+
+/-- `AngularGrid.convert_angular_sizes_to_degrees(sizes, method)` (C12): `ValueError` when a size
+is above the largest supported one -/
+def convertAngularSizesToDegrees (env : Env K) (sizes : List Nat) : Except Err (List Nat) :=
+  match convertSizes env.npointsTbl sizes with
+  | some ds => .ok ds
+  | none => .error .valueError
+
+/-- `AngularGrid._get_degree_and_size(degree=d, size=s, method=method)[0]` (C12) -/
+def getDegreeAndSize0 (env : Env K) (degree size : Option Nat) : Except Err Nat :=
+  match getDegreeAndSize env.degreesTbl env.npointsTbl degree size with
+  | .ok deg _ => .ok deg
+  | .valueError => .error .valueError
+  | .indexError => .error .indexError
+
+/-- `self._generate_atomic_grid(rgrid, degrees, rotate=rotate, method=…)` followed by the attribute
+assignments, for a `rotate` that passed the constructor's checks.  Inside the shell loop, after
+`AngularGrid(degree=deg_i)`, the code re-checks `isinstance(rotate, int)`: a NumPy integer seed
+that the constructor accepted is rejected there with `ValueError` (on the first shell; a length
+mismatch or an unsupported first degree raise first).  `True` counts as 1 (`rotate != 0`,
+`rotate + i`), `False` as 0. -/
+def generateAtomicGrid (env : Env K) (rgrid : RGrid K) (degrees : List Nat) (rotate : RotArg)
+    (center : List K) : Except Err (Grid K) :=
+  match V3.ofList? center with
+  | none => .error .noData
+  | some c =>
+    if rotate.isInt then
+      if rotate.val < 0 then .error .noData else generate env rgrid.nodes degrees rotate.val.toNat c
+    else
+      if degrees.length ≠ rgrid.nodes.length then .error .valueError else
+      match degrees with
+      | [] => generate env rgrid.nodes degrees 0 c
+      | d :: _ =>
+        match angular env d with
+        | .error e => .error e
+        | .ok _ => .error .valueError
+
+/-- which request `__init__` works on: `sizes` wins when given; both must be a list / array -/
+def requestOf : SeqArg → SeqArg → Except Err Request
+  | _, .seq ss => .ok (.sizes ss)
+  | _, .other => .error .typeError
+  | .seq ds, .none => .ok (.degrees ds)
+  | _, .none => .error .typeError
+
+/-- the two `rotate` guards of `__init__`: `TypeError` unless an `int` / NumPy integer / `bool`,
+`ValueError` unless `False` or `0 ≤ rotate < 2**32 - len(rgrid.points)` -/
+def rotateCheck (rotate : RotArg) (n : Nat) : Except Err Unit :=
+  if !(rotate.isIntOrNpInteger) then .error .typeError
+  else if rotate.isNotFalse &&
+      !(decide ((0 : Int) ≤ rotate.val ∧ rotate.val < (2 : Int) ^ 32 - (n : Int))) then .error .valueError
+  else .ok ()
+
+/-- **Hand model of `AtomGrid.__init__` on Python-level arguments** (what `Gen.AtomGrid.init` is
+proved equal to): centre default, `check` = `_input_type_check`, the `rotate` guards, the request
+(`sizes` before `degrees`, type guards, C12 conversion, one-entry broadcast), then the assembly. -/
+def initArgs (check : RGrid K → List K → Except Err Unit) (env : Env K) (rgrid : RGrid K)
+    (degrees sizes : SeqArg) (center : Option (List K)) (rotate : RotArg) : Except Err (Grid K) :=
+  let c : List K := match center with
+    | none => npZeros 3
+    | some v => v
+  match check rgrid c with
+  | .error e => .error e
+  | .ok _ =>
+    match rotateCheck rotate rgrid.points.length with
+    | .error e => .error e
+    | .ok _ =>
+      match requestOf degrees sizes with
+      | .error e => .error e
+      | .ok req =>
+        match effectiveDegrees env.npointsTbl rgrid.size req with
+        | .error e => .error e
+        | .ok degs => generateAtomicGrid env rgrid degs rotate c
+
+end PyEnv
 
 section Sectors
 variable {K : Type} [LT K] [LE K] [DecidableLT K] [DecidableLE K]
